@@ -2,6 +2,7 @@ package main
 
 import (
 	"bufio"
+	"go/types"
 	"fmt"
 	"os"
 	"strconv"
@@ -41,6 +42,8 @@ type Contract struct {
 	Locals      map[string]string // local alias -> "name#ordinal"
 	MayPanic    bool
 	Preserves   []string          // array-name prefixes that a call to this function leaves unchanged even though its effect is "everything"
+	SortedBy    []string          // closure passed to sort.Slice: captured slice name [, string field]: less(i,j) <=> key(i) < key(j)
+	SortedByTags []string
 	NoWrite     []*Clause         // struct types none of whose fields the body may store to (unless the object is its own allocation)
 	NoTypeInv   bool              // the method neither needs nor re-establishes the receiver's type invariant (String(), ...)
 	NilableRecv bool              // the method tolerates a nil receiver (no call-site obligation, no entry assumption)
@@ -68,6 +71,7 @@ type ContractDB struct {
 	ifacePreserves map[string][]string
 	nonnilIface map[string]bool
 	pureIface  map[string]bool // "pkg.Iface.Method": assumed pure, modelled as an uninterpreted function of receiver and arguments
+	nonnilFields map[string]bool
 	pureFields map[string]bool // "pkg.Struct.field": function-typed field whose values are pure functions
 	typeinv map[string][]*Clause // receiver prefix "(*pkg.T)" -> invariant over `self`, required and ensured by every method
 	specFn map[string]*SpecFn
@@ -86,7 +90,7 @@ type PredDef struct {
 }
 
 func newContractDB() *ContractDB {
-	return &ContractDB{byFunc: map[string]*Contract{}, preds: map[string]*PredDef{}, specFn: map[string]*SpecFn{}, typeinv: map[string][]*Clause{}, pureFields: map[string]bool{}, pureIface: map[string]bool{}, nonnilIface: map[string]bool{}, ifacePreserves: map[string][]string{}, effectFns: map[string]bool{}, closedTerms: map[string]bool{}, pureFns: map[string]bool{}, effectPkgs: map[string]bool{}, observers: map[string]bool{}}
+	return &ContractDB{byFunc: map[string]*Contract{}, preds: map[string]*PredDef{}, specFn: map[string]*SpecFn{}, typeinv: map[string][]*Clause{}, pureFields: map[string]bool{}, nonnilFields: map[string]bool{}, pureIface: map[string]bool{}, nonnilIface: map[string]bool{}, ifacePreserves: map[string][]string{}, effectFns: map[string]bool{}, closedTerms: map[string]bool{}, pureFns: map[string]bool{}, effectPkgs: map[string]bool{}, observers: map[string]bool{}}
 }
 
 func splitTags(kw string) (string, []string) {
@@ -227,10 +231,14 @@ func (db *ContractDB) load(path string) error {
 		case "fieldfn":
 			// fieldfn pkg.Struct.field: pure
 			nm, what, _ := strings.Cut(rest, ":")
-			if strings.TrimSpace(what) != "pure" {
-				panic(fmt.Sprintf("%s:%d: fieldfn supports only pure", path, ln))
+			what = strings.TrimSpace(what)
+			if what != "pure" && what != "pure nonnil" {
+				panic(fmt.Sprintf("%s:%d: fieldfn supports only pure / pure nonnil", path, ln))
 			}
 			db.pureFields[strings.TrimSpace(nm)] = true
+			if what == "pure nonnil" {
+				db.nonnilFields[strings.TrimSpace(nm)] = true
+			}
 		case "typeinv":
 			// typeinv (*pkg.T): expr over self
 			recv, ex, ok := strings.Cut(rest, ":")
@@ -274,6 +282,10 @@ func (db *ContractDB) load(path string) error {
 		case "preserves":
 			need()
 			cur.Preserves = append(cur.Preserves, preservePrefixes(rest)...)
+		case "sortedby":
+			need()
+			cur.SortedBy = strings.Fields(rest)
+			cur.SortedByTags = tags
 		case "nowrite":
 			need()
 			cur.NoWrite = append(cur.NoWrite, &Clause{Tags: tags, Src: rest, File: path, Line: ln})
@@ -355,6 +367,18 @@ func (db *ContractDB) load(path string) error {
 	return nil
 }
 
+// ifacePreservesFor: the preserves declaration of an interface method ("pkg.Iface.Method" or "pkg.Iface.*").
+func (db *ContractDB) ifacePreservesFor(m *types.Func) []string {
+	key := ifaceMethodKey(m)
+	if pp, ok := db.ifacePreserves[key]; ok {
+		return pp
+	}
+	if i := strings.LastIndex(key, "."); i > 0 {
+		return db.ifacePreserves[key[:i]+".*"]
+	}
+	return nil
+}
+
 // preservePrefixes: "pkg.T" -> fields of struct T; "cells:T" -> cells of type T; "map:K=>V" -> a map type's arrays.
 func preservePrefixes(s string) []string {
 	var out []string
@@ -402,7 +426,7 @@ type (
 	EUnary  struct{ Op string; X Expr }
 	EBinary struct{ Op string; L, R Expr }
 	EForall struct{ Var string; Body Expr; Sort string }
-	EExists struct{ Var string; Body Expr }
+	EExists struct{ Var string; Body Expr; Sort string; Witness Expr }
 	EOld    struct{ X Expr }
 )
 
@@ -632,7 +656,16 @@ func (p *parser) primary() Expr {
 		case "existsStr":
 			v := p.next().s
 			p.expect(":")
-			return &EExists{v, p.impl()}
+			return &EExists{v, p.impl(), "Str", nil}
+		case "exists":
+			v := p.next().s
+			var w Expr
+			if t := p.peek(); t.k == "ident" && t.s == "witness" {
+				p.next()
+				w = p.add()
+			}
+			p.expect(":")
+			return &EExists{v, p.impl(), "Int", w}
 		case "old":
 			p.expect("(")
 			e := p.impl()
